@@ -19,8 +19,17 @@ RULE = (
     "rationals incl. absent, exact halves (ties) and negative values, optional title/lot/obasis_name/run_type incl. "
     "empty strings, upper-case and unknown run types, both programs + unknown program names, default template and "
     "random templates over any subset of the fields with '{{'/'}}' escapes, unknown fields, unbalanced braces, keyword "
-    "arguments overriding any field (str/int values); compared byte for byte with the file written by api.write_input. "
-    "non-trivial = request distinct and (custom template or kwargs or non-default object fields or >1 atom)"
+    "arguments overriding any field (str/int values); 0-atom objects; scripted atom_line callbacks given as a table "
+    "iatom -> behaviour (return a literal text incl. braces, embedded/trailing newlines, empty and 1000-character strings, "
+    "a str-subclass instance, the program's default line, a text computed from the object; return a non-str object "
+    "None/int/bytes/list/float/tuple; raise one of 24 Exception subclasses incl. iodata's own error classes and a user "
+    "class; raise KeyboardInterrupt/SystemExit/GeneratorExit/a user BaseException subclass) at every atom position, "
+    "tables shorter/longer than the molecule, combined with unknown programs, unknown run types, unknown elements, bad "
+    "templates and a 'geometry' keyword argument; each call on a fresh path that either does not exist or holds "
+    "sentinel content.  Compared with the model: exception class (Pass:<class> for a BaseException that propagates), the "
+    "file state afterwards (absent / old content / byte-exact new content) and the list of iatom values the callback "
+    "was called with.  non-trivial = request distinct and (callback or custom template or kwargs or non-default object "
+    "fields or >1 atom)"
 )
 TRUSTED = [
     "extraction of default templates (module attribute), run-type keyword maps/defaults and the atom-line f-string "
@@ -28,13 +37,19 @@ TRUSTED = [
 ]
 ASSUMPTIONS = [
     "str.format is modelled for templates whose replacement fields are plain names ('{name}', '{{', '}}'); conversions, "
-    "format specs, attribute/index access and fields holding arrays are outside the model and never generated",
+    "format specs, attribute/index access and fields holding arrays are outside the model and never generated in the "
+    "correspondence (the failure injection of the search does use them); text returned by a callback is inserted "
+    "verbatim (str.format is single-pass), which the model and the byte comparison both cover",
     "coordinates are carried as integers k = round(x/angstrom*1e6); for |k| < 10^10 the binary64 value "
     "float(k/1e6)*angstrom/angstrom is within 3 ulp of k/1e6, far from a rounding boundary of '%.6f', so CPython's "
     "correctly rounded '%.6f' prints exactly k (checked implicitly by the byte comparison)",
     "charge and spinpol reach the writer as the binary64 values read back from the IOData object; the harness sends "
     "exactly those values to the model as rationals",
-    "custom atom_line callbacks are not modelled (default atom lines only)",
+    "an atom_line callback is modelled as a deterministic function (object, iatom) -> str | non-str | raises(class), "
+    "for ALL such functions in the theorems and for the scripted tables in the correspondence; callbacks that modify "
+    "the IOData object, depend on call history, or write to the output file themselves are outside the model",
+    "exceptions are classified only as Exception-subclass or BaseException-only (what `except Exception` sees); "
+    "an exception raised while the file is being closed or by print() itself (I/O errors) is not modelled",
 ]
 PROGRAMS = ["gaussian", "orca"]
 
@@ -163,6 +178,157 @@ def _exc_class(exc):
     return "Other:" + n
 
 
+# --------------------------------------------------------------------------- scripted callbacks
+class _Custom(Exception):
+    pass
+
+
+class _CustomBase(BaseException):
+    pass
+
+
+class _StrSub(str):
+    pass
+
+
+def _iodata_exc(name):
+    def make():
+        import iodata.utils as u
+
+        return getattr(u, name)("x", "f.in")
+    return make
+
+
+# instances of (subclasses of) Exception: every one must surface as WriteInputError
+EXC = {
+    "ZeroDivisionError": lambda: ZeroDivisionError("x"), "RuntimeError": lambda: RuntimeError("x"),
+    "AttributeError": lambda: AttributeError("x"), "OSError": lambda: OSError("x"),
+    "AssertionError": lambda: AssertionError("x"), "Custom": lambda: _Custom("x"), "KeyError": lambda: KeyError("x"),
+    "IndexError": lambda: IndexError("x"), "TypeError": lambda: TypeError("x"), "ValueError": lambda: ValueError("x"),
+    "FloatingPointError": lambda: FloatingPointError("x"),
+    "UnicodeDecodeError": lambda: UnicodeDecodeError("a", b"", 0, 1, "x"), "StopIteration": lambda: StopIteration(),
+    "MemoryError": lambda: MemoryError(), "NotImplementedError": lambda: NotImplementedError("x"),
+    "RecursionError": lambda: RecursionError("x"), "PermissionError": lambda: PermissionError("x"),
+    "OverflowError": lambda: OverflowError("x"), "UserWarning": lambda: UserWarning("x"),
+    "Exception": lambda: Exception("x"),
+    "WriteInputError": _iodata_exc("WriteInputError"), "FileFormatError": _iodata_exc("FileFormatError"),
+    "LoadError": _iodata_exc("LoadError"), "DumpError": _iodata_exc("DumpError"),
+}
+# BaseException but not Exception: `except Exception` does not catch them, they propagate unchanged
+BASE = {
+    "KeyboardInterrupt": lambda: KeyboardInterrupt(), "SystemExit": lambda: SystemExit(3),
+    "GeneratorExit": lambda: GeneratorExit(), "CustomBase": lambda: _CustomBase("x"),
+}
+NONSTR = {"None": None, "int": 7, "bytes": b"ab", "list": ["x"], "float": 1.5, "tuple": ("a",)}
+CB_TEXTS = ["", " ", "X", "{lot}", "{", "}", "{{}}", "{geometry}", "{0}", "}{", "a\nb", "\n", "tail\n", "\nhead", "\n\n",
+            "\tH 0 0 0", "H   0.000000   0.000000   0.000000", "*", "$end", "x" * 1000]
+SENTINEL = "\x00OLD\x00"
+
+
+def make_callback(case):
+    """(closure, list of iatom values it was called with, list of exception instances it raised)"""
+    import importlib
+
+    table = case["cb"]
+    calls, raised = [], []
+    mod = importlib.import_module("iodata.inputs." + case["prog"]) if case["prog"] in PROGRAMS else None
+
+    def atom_line(data, iatom):
+        calls.append(int(iatom))
+        e = table[iatom]  # IndexError outside the table
+        kind = e[0]
+        if kind == "L":
+            return e[1]
+        if kind == "S":
+            return _StrSub(e[1])
+        if kind in "EB":
+            exc = (EXC if kind == "E" else BASE)[e[1]]()
+            raised.append(exc)
+            raise exc
+        if kind == "N":
+            return NONSTR[e[1]]
+        if kind == "D":
+            return mod.default_atom_line(data, iatom)
+        return f"{int(data.atnums[iatom])}:{iatom}"  # "Z": depends on the object
+
+    return atom_line, calls, raised
+
+
+def _enc_cb(table):
+    if table is None:
+        return "-"
+    if not table:
+        return "@"
+    return ";".join(e[0] + (_enc(e[1]) if e[0] in "LS" else e[1] if len(e) > 1 else "") for e in table)
+
+
+def cb_outcome(case):
+    """What the property demands of a scripted callback on an object whose run type is valid, derived from the table
+    alone: ("raise", k, status) | ("nonstr", natom, status) | ("lines", natom, [text | None for a default line])."""
+    table, natom = case["cb"], len(case["atoms"])
+    for i in range(natom):
+        e = table[i] if i < len(table) else ("E", "IndexError")
+        if e[0] == "E":
+            return "raise", i + 1, "err WriteInputError"
+        if e[0] == "B":
+            return "raise", i + 1, "err Pass:" + e[1]
+        if e[0] == "D" and not 1 <= case["atoms"][i][0] <= 118:
+            return "raise", i + 1, "err WriteInputError"
+    if any(table[i][0] == "N" for i in range(natom)):
+        return "nonstr", natom, "err WriteInputError"
+    lines = []
+    for i in range(natom):
+        e = table[i]
+        lines.append(e[1] if e[0] in "LS" else None if e[0] == "D" else f"{case['atoms'][i][0]}:{i}")
+    return "lines", natom, lines
+
+
+def cb_class(case):
+    if case.get("cb") is None:
+        return "cb:none"
+    kind, n, x = cb_outcome(case)
+    if kind == "raise":
+        pos = "first" if n == 1 else "last" if n == len(case["atoms"]) else "mid"
+        return "cb:raise-" + ("base" if x.startswith("err Pass") else "exc") + "@" + pos
+    if kind == "nonstr":
+        return "cb:nonstr"
+    return "cb:lines" + ("+nl" if any(l and "\n" in l for l in x) else "") + ("+brace" if any(l and ("{" in l or "}" in l) for l in x) else "")
+
+
+def _rand_entry(rng, natom_known=True):
+    r = rng.random()
+    if r < 0.45:
+        return ["L" if rng.random() < 0.85 else "S", rng.choice(CB_TEXTS) if rng.random() < 0.6 else _rand_text(rng, rng.randint(0, 12), LIT + "{}")]
+    if r < 0.6:
+        return ["D"]
+    if r < 0.7:
+        return ["Z"]
+    if r < 0.82:
+        return ["E", rng.choice(sorted(EXC))]
+    if r < 0.9:
+        return ["B", rng.choice(sorted(BASE))]
+    return ["N", rng.choice(sorted(NONSTR))]
+
+
+def _rand_table(rng, natom):
+    style = rng.random()
+    if style < 0.45:  # all calls return text: the geometry is the join
+        table = [e for e in (_rand_entry(rng) for _ in range(4 * natom + 8)) if e[0] in "LSDZ"][:natom]
+    elif style < 0.75:  # one decisive failure at a chosen atom, text elsewhere
+        table = [e for e in (_rand_entry(rng) for _ in range(4 * natom + 8)) if e[0] in "LSDZ"][:natom]
+        if natom:
+            table[rng.randrange(natom)] = rng.choice([["E", rng.choice(sorted(EXC))], ["B", rng.choice(sorted(BASE))],
+                                                      ["N", rng.choice(sorted(NONSTR))]])
+    else:
+        table = [_rand_entry(rng) for _ in range(natom)]
+    r = rng.random()
+    if r < 0.05 and natom:
+        table = table[:-1]  # table[natom-1] raises IndexError in the closure
+    elif r < 0.1:
+        table = table + [_rand_entry(rng)]  # never used
+    return table
+
+
 def build(case):
     """IOData object for a case dict (atoms are (Z, kx, ky, kz) with k in 1e-6 angstrom)"""
     from iodata import IOData
@@ -198,27 +364,51 @@ def build(case):
 
 
 def run_impl(case, data=None):
-    """(status, text) of api.write_input on the real code"""
+    """(status, text, file state, calls) of api.write_input on the real code.
+
+    status: "ok" | "err <class>" | "err Pass:<class>" (a BaseException raised by the scripted callback came through);
+    file state: "absent" | "old" (still the content it had before the call) | "f=<content>";
+    calls: list of the iatom values the scripted callback received, None without a callback."""
     from iodata.api import write_input
 
     data = data if data is not None else build(case)
+    extra = {}
+    calls, raised = None, []
+    if case.get("cb") is not None:
+        extra["atom_line"], calls, raised = make_callback(case)
     with tempfile.TemporaryDirectory(prefix="c19-") as tmp:
         path = os.path.join(tmp, "input.in")
+        if case.get("pre"):
+            with open(path, "w") as fh:
+                fh.write(SENTINEL)
         try:
-            write_input(data, path, case["prog"], template=case.get("template"), **(case.get("kwargs") or {}))
+            write_input(data, path, case["prog"], template=case.get("template"), **extra, **(case.get("kwargs") or {}))
+            st = "ok"
         except Exception as exc:
-            return "err " + _exc_class(exc), None
-        with open(path) as fh:
-            return "ok", fh.read()
+            st = "err " + _exc_class(exc)
+        except BaseException as exc:
+            if not any(exc is r for r in raised):
+                raise  # not ours (a real Ctrl-C)
+            st = "err Pass:" + next(k for k, v in BASE.items() if type(v()) is type(exc))
+        if not os.path.exists(path):
+            return st, None, "absent", calls
+        with open(path, newline="") as fh:
+            content = fh.read()
+        return st, (content if st == "ok" else None), ("old" if content == SENTINEL else "f=" + _enc(content)), calls
+
+
+def response(st, fstate, calls):
+    return f"{st} {fstate} " + ("-" if calls is None else "c=" + (",".join(str(i) for i in calls) or "@"))
 
 
 def request(case, data):
     ch = None if data.charge is None else Fraction(float(data.charge))
     sp = None if data.spinpol is None else Fraction(float(data.spinpol))
-    atoms = ";".join(":".join(str(x) for x in a) for a in case["atoms"])
+    atoms = ";".join(":".join(str(x) for x in a) for a in case["atoms"]) or "@"
     return " ".join(["input", _enc(case["prog"]), atoms, _enc_opt(case.get("title")), _enc_opt(case.get("lot")),
                      _enc_opt(case.get("obasis_name")), _enc_opt(case.get("run_type")), _enc_fr(ch), _enc_fr(sp),
-                     _enc_opt(case.get("template")), _enc_kwargs(case.get("kwargs"))])
+                     _enc_opt(case.get("template")), _enc_kwargs(case.get("kwargs")), _enc_cb(case.get("cb")),
+                     "1" if case.get("pre") else "0"])
 
 
 FIELDS = ["title", "lot", "obasis_name", "run_type", "charge", "spinmult", "geometry"]
@@ -307,6 +497,12 @@ def _rand_case(rng, natom=None):
         extra = [k for k in kw if k not in FIELDS]
     if rng.random() < 0.55:
         case["template"] = _rand_template(rng, extra + ["nproc"])
+    if rng.random() < 0.35:
+        case["cb"] = _rand_table(rng, n)
+        if rng.random() < 0.25:  # elements without a symbol are fine when the default line is never asked for
+            case["atoms"][rng.randrange(n)] = (rng.choice([0, 119, 250]), 1, 2, 3)
+    if rng.random() < 0.4:
+        case["pre"] = True
     return case
 
 
@@ -335,6 +531,7 @@ def _cases(ctx):
                    ["unrestricted", ["1", "1/2"], ["1"]], ["restricted", ["1", "1/2"], ["1", "0"]],
                    ["unrestricted", ["1", "1"], ["1", "1", "1", "1"]], ["restricted", ["1"], ["1"]]):
             cases.append(({"prog": prog, "atoms": [(8, 0, 0, 0), (8, 1207000, 0, 0)], "mo": mo}, "orbitals-derived"))
+    cases.extend(_callback_cases(ctx))
     for n in (100, 200):
         cases.append((_rand_case(rng, n), f"{n}-atoms"))
     if ctx.thorough:
@@ -345,19 +542,90 @@ def _cases(ctx):
     return cases
 
 
+def _callback_cases(ctx):
+    """Systematic scripted callbacks: every exception class / non-str kind / special text at every position."""
+    rng = ctx.rng
+    cases = []
+    three = [(8, 0, 0, 0), (1, 957200, 0, 0), (1, -239987, 926627, 0)]
+    ok = [["L", "first"], ["D"], ["Z"]]
+    for ip, prog in enumerate(PROGRAMS):
+        def add(cls, table, atoms=three, **kw):
+            cases.append(({"prog": kw.pop("prog", prog), "atoms": list(atoms), "cb": table, **kw}, cls))
+
+        # failures: each class at each atom (quick: one position per class, rotating; thorough: all three)
+        for j, (kind, names) in enumerate((("E", sorted(EXC)), ("B", sorted(BASE)), ("N", sorted(NONSTR)))):
+            for i, name in enumerate(names):
+                for k in (range(3) if ctx.thorough or kind != "E" else [(i + ip) % 3]):
+                    table = [list(e) for e in ok]
+                    table[k] = [kind, name]
+                    add(f"callback-{'raises' if kind != 'N' else 'returns-nonstr'}", table, pre=bool((i + k + j) % 2))
+        # two failures: the earlier call decides, a non-str before a raise does not stop the calls
+        for first, second in ((["E", "KeyError"], ["B", "KeyboardInterrupt"]), (["B", "SystemExit"], ["E", "ValueError"]),
+                              (["N", "None"], ["E", "RuntimeError"]), (["N", "int"], ["B", "GeneratorExit"]),
+                              (["E", "Custom"], ["N", "bytes"])):
+            add("callback-two-failures", [first, ["L", "mid"], second], pre=True)
+            add("callback-two-failures", [["L", "x"], first, second])
+        # texts: every special text at every position, alone and next to default lines
+        for i, text in enumerate(CB_TEXTS):
+            for k in range(3):
+                table = [["D"], ["D"], ["D"]]
+                table[k] = ["S" if (i + k) % 5 == 0 else "L", text]
+                add("callback-text", table, pre=bool((i + k) % 2))
+            add("callback-text", [["L", text]] * 3, template="[{geometry}]{lot}")
+            add("callback-text", [["L", text]], atoms=three[:1])
+        add("callback-default-delegate", [["D"], ["D"], ["D"]])
+        add("callback-object-dependent", [["Z"], ["Z"], ["Z"]], template=PROBE if ip else None)
+        # the default is never consulted: elements without a symbol are written when the callback does not delegate
+        add("callback-unknown-element", [["L", "Xx 0 0 0"], ["Z"]], atoms=[(0, 0, 0, 0), (119, 1, 2, 3)])
+        add("callback-unknown-element", [["L", "a"], ["D"], ["L", "never"]], atoms=[(1, 0, 0, 0), (0, 1, 2, 3), (1, 0, 0, 0)])
+        # what precedes the callback: unknown program (file untouched), unknown run type (file opened, no call)
+        for pre in (False, True):
+            add("callback-unknown-program", [["B", "KeyboardInterrupt"]] * 3, prog=prog.upper(), pre=pre)
+            add("callback-unknown-program", [["L", "x"]] * 3, prog="common", pre=pre)
+            add("callback-unknown-run-type", [["B", "KeyboardInterrupt"]] * 3, run_type="bogus", pre=pre)
+            add("callback-unknown-run-type", [["L", "x"]] * 3, run_type="sp", pre=pre)
+            cases.append(({"prog": "nope", "atoms": three, "pre": pre}, "unknown-program"))
+            cases.append(({"prog": prog, "atoms": three, "pre": pre, "run_type": "bogus"}, "every-run-type"))
+            cases.append(({"prog": prog, "atoms": [(1, 0, 0, 0), (0, 1, 2, 3)], "pre": pre}, "unknown-element"))
+            cases.append(({"prog": prog, "atoms": three, "pre": pre, "template": "{nokey}"}, "bad-template"))
+            cases.append(({"prog": prog, "atoms": three, "pre": pre}, "file-replaced"))
+        # what follows the callback: a bad template fails after every atom was asked; kwargs cannot replace the geometry
+        for tmpl in ("{", "{nokey}", "}{geometry}", "{0}"):
+            add("callback-bad-template", [["L", "x"], ["Z"], ["D"]], template=tmpl, pre=True)
+        add("callback-geometry-kwarg", [["L", "g"]] * 3, template="{geometry}|{geometry}", kwargs={"geometry": "KW"})
+        # table shorter / longer than the molecule
+        add("callback-short-table", [["L", "x"], ["L", "y"]])
+        add("callback-long-table", [["L", "x"], ["L", "y"], ["L", "z"], ["E", "ValueError"]])
+        # no atoms: the callback is never called
+        add("zero-atoms", [], atoms=[])
+        add("zero-atoms", [["B", "SystemExit"]], atoms=[], template=PROBE)
+        cases.append(({"prog": prog, "atoms": []}, "zero-atoms"))
+        # many atoms: failure at a random atom of a big molecule
+        for n in (50, 200):
+            big = _rand_case(rng, n)
+            big.update(prog=prog, cb=[["D"]] * n, run_type="opt")
+            big["atoms"] = [(rng.randint(1, 118), *a[1:]) for a in big["atoms"]]
+            big["cb"][rng.randrange(n)] = rng.choice([["E", "OSError"], ["B", "CustomBase"], ["N", "list"], ["L", "two\nlines"]])
+            big.pop("template", None)
+            cases.append((big, f"callback-{n}-atoms"))
+    return cases
+
+
 def correspond(ctx):
     cases = _cases(ctx)
     reqs, outs, nontriv, classes = [], [], [], []
     for case, cls in cases:
         data = build(case)
-        st, text = run_impl(case, data)
+        st, text, fstate, calls = run_impl(case, data)
         reqs.append(request(case, data))
-        outs.append(st if text is None else "ok " + _enc(text))
-        nontriv.append(bool(case.get("template") is not None or case.get("kwargs") or len(case["atoms"]) > 1
+        outs.append(response(st, fstate, calls))
+        nontriv.append(bool(case.get("cb") is not None or case.get("template") is not None or case.get("kwargs")
+                            or len(case["atoms"]) > 1
                             or any(case.get(k) is not None for k in ("title", "lot", "obasis_name", "run_type", "charge", "spinpol"))))
         classes.append(f"{cls}/{case['prog'] if case['prog'] in PROGRAMS else 'other'}/"
                        + ("template" if case.get("template") is not None else "default-template")
-                       + ("+kwargs" if case.get("kwargs") else "") + "/" + st)
+                       + ("+kwargs" if case.get("kwargs") else "") + "/" + cb_class(case)
+                       + ("/pre-existing" if case.get("pre") else "") + "/" + st + ("" if fstate.startswith("f=") else ":" + fstate))
     ctx.corr("input", reqs, outs, nontriv, classes)
 
 
@@ -394,23 +662,86 @@ def _expected_fields(case, data):
     return exp
 
 
+def _fix6(k):
+    """'%10.6f' of k*1e-6 written from the integer itself"""
+    body = f"{abs(k) // 10**6}.{abs(k) % 10**6:06d}"
+    return ("-" + body if k < 0 else body).rjust(10)
+
+
+def _show_cb(table):
+    return "None" if table is None else "[" + ", ".join(e[0] + (":" + repr(e[1])[:24] if len(e) > 1 else "") for e in table[:8]) + (", ...]" if len(table) > 8 else "]")
+
+
 def check_input(case):
-    """the property's predicate for one case whose template is PROBE or the default; returns None or (sig, what)"""
+    """the property's predicate for one case whose template is PROBE, a BAD_TEMPLATE or the default; returns None or (sig, what)"""
     from iodata.periodic import num2sym
-    from iodata.utils import angstrom
 
     data = build(case)
-    st, text = run_impl(case, data)
+    st, text, fstate, calls = run_impl(case, data)
     prog = case["prog"]
-    call = f"write_input(fmt={prog!r}, run_type={case.get('run_type')!r}, kwargs={case.get('kwargs')!r})"
+    cb = case.get("cb")
+    call = (f"write_input(fmt={prog!r}, run_type={case.get('run_type')!r}, kwargs={case.get('kwargs')!r}"
+            + (f", atom_line={_show_cb(cb)}" if cb is not None else "") + (", existing file" if case.get("pre") else "") + ")")
+    untouched = "old" if case.get("pre") else "absent"
     if prog not in PROGRAMS:
-        return None if st == "err FileFormatError" else ("input-unknown-program", f"{call} ended with {st}, expected FileFormatError")
+        if st != "err FileFormatError":
+            return ("input-unknown-program", f"{call} ended with {st}, expected FileFormatError")
+        if fstate != untouched:
+            return ("input-file-state:unknown-program", f"{call}: file is {fstate[:40]!r} afterwards, expected it {untouched}")
+        if calls:
+            return ("input-callback-calls", f"{call}: callback called with {calls} although the program is unknown")
+        return None
     exp = _expected_fields(case, data)
     valid_atoms = all(a[0] in num2sym for a in case["atoms"])
-    if exp is None or not valid_atoms or case.get("template") in BAD_TEMPLATES:
-        return None if st == "err WriteInputError" else ("input-failure-class", f"{call} ended with {st}, expected WriteInputError")
+    want_st, want_calls, cb_lines = None, None, None
+    if exp is None:
+        want_st, want_calls = "err WriteInputError", []
+    elif cb is not None:
+        kind, ncalls, x = cb_outcome(case)
+        want_calls = list(range(ncalls))
+        if kind != "lines":
+            want_st = x
+        else:
+            cb_lines = x
+            if case.get("template") in BAD_TEMPLATES:
+                want_st = "err WriteInputError"
+    elif not valid_atoms or case.get("template") in BAD_TEMPLATES:
+        want_st = "err WriteInputError"
+    if cb is None:
+        want_calls = None
+    if want_st is not None:
+        if st != want_st:
+            if cb is not None and exp is not None and cb_lines is None:
+                return (f"input-callback-failure:{st.replace('err ', '')}", f"{call} ended with {st}, expected {want_st}")
+            return ("input-failure-class", f"{call} ended with {st}, expected {want_st}")
+        if calls != want_calls:
+            return ("input-callback-calls", f"{call}: callback called with iatom = {calls}, expected {want_calls}")
+        if fstate != "f=@":
+            return ("input-file-state:after-failure", f"{call} ended with {st}: file is {fstate[:40]!r}, expected it opened and empty")
+        return None
     if st != "ok":
         return ("input-rejects-valid", f"{call} ended with {st} for a valid object")
+    if calls != want_calls:
+        return ("input-callback-calls", f"{call}: callback called with iatom = {calls}, expected {want_calls}")
+    if cb_lines is not None:
+        # custom callback: the geometry is exactly the join of the callback's strings (default lines where it delegates)
+        geom = "\n".join(l if l is not None else f"{num2sym[a[0]]:3s} {_fix6(a[1])} {_fix6(a[2])} {_fix6(a[3])}"
+                         for l, a in zip(cb_lines, case["atoms"]))
+        if case.get("template") == PROBE:
+            head, tail = "T={title}|L={lot}|B={obasis_name}|R={run_type}|C={charge}|M={spinmult}|\n".format(**exp), "\nEND\n"
+        elif prog == "gaussian":
+            head, tail = "#n {lot}/{obasis_name} {run_type}\n\n{title}\n\n{charge} {spinmult}\n".format(**exp), "\n\n\n"
+        else:
+            head, tail = "! {lot} {obasis_name} {run_type}\n# {title}\n*xyz {charge} {spinmult}\n".format(**exp), "\n*\n"
+        if text == head + geom + tail:
+            return None
+        if text.startswith(head) and text.endswith(tail) and len(text) >= len(head) + len(tail):
+            got = text[len(head):len(text) - len(tail)]
+            return ("input-callback-geometry", f"{call}: geometry block {got[:120]!r}, expected the callback's strings joined: {geom[:120]!r}")
+        if text.startswith(head):
+            return ("input-callback-geometry", f"{call}: text after the header is {text[len(head):][:120]!r}, expected {(geom + tail)[:120]!r}")
+        bad = [k for k in exp if exp[k] not in text[:len(head) + 40]]
+        return (f"input-field:{','.join(bad) or 'layout'}", f"{call}: file starts with {text[:len(head)]!r}, expected {head!r}")
     lines = text.split("\n")
     natom = len(case["atoms"])
     if case.get("template") == PROBE:
@@ -473,24 +804,53 @@ def _search_case(rng):
         case["template"] = rng.choice(BAD_TEMPLATES)
     if rng.random() < 0.05:
         case["atoms"] = atoms + [(rng.choice([0, 119]), 0, 0, 0)]
+    if rng.random() < 0.4:
+        case["cb"] = _rand_table(rng, len(case["atoms"]))
+        if rng.random() < 0.2:
+            case["atoms"] = list(case["atoms"])
+            case["atoms"][rng.randrange(len(case["atoms"]))] = (rng.choice([0, 119, 300]), 5, 6, 7)
+    if rng.random() < 0.4:
+        case["pre"] = True
     return case
 
 
 def search(ctx):
     rng = ctx.rng
     check_failures(ctx)
+    for case, what in _callback_failure_cases():
+        r = check_input(case)
+        ctx.count("search-failure-injection", [case["prog"], what, case.get("pre", False)], "callback/" + cb_class(case) + ("/ok" if r is None else "/" + r[0]))
+        if r:
+            ctx.fail(r[0], r[1], {"kind": "input", "case": case})
     for _ in range(ctx.n(1500, 20000) * (3 if ctx.escalated else 1)):
         case = _search_case(rng)
         r = check_input(case)
         ctx.count("search-input", case, f"{case['prog'] if case['prog'] in PROGRAMS else 'other'}/"
-                  + ("probe" if case.get("template") == PROBE else "bad-template" if case.get("template") else "default") + ("/ok" if r is None else "/" + r[0]),
+                  + ("probe" if case.get("template") == PROBE else "bad-template" if case.get("template") else "default")
+                  + "/" + cb_class(case) + ("/ok" if r is None else "/" + r[0]),
                   sample={k: v for k, v in case.items() if k != "atoms"})
         if r:
             ctx.fail(r[0], r[1], {"kind": "input", "case": {**case, "atoms": [list(a) for a in case["atoms"]]}})
 
 
-class _Custom(Exception):
-    pass
+def _callback_failure_cases():
+    """Scripted callbacks failing at a chosen atom: every Exception class / BaseException class / non-str kind at
+    every position of a three-atom molecule, on a fresh and on an existing file; checked by `check_input`."""
+    water = [[8, 0, 0, 0], [1, 957200, 0, 0], [1, -239987, 926627, 0]]
+    cases = []
+    for prog in PROGRAMS:
+        for kind, names in (("E", sorted(EXC)), ("B", sorted(BASE)), ("N", sorted(NONSTR))):
+            for i, name in enumerate(names):
+                for k in range(3):
+                    table = [["L", "O 0 0 0"], ["D"], ["Z"]]
+                    table[k] = [kind, name]
+                    case = {"prog": prog, "atoms": water, "cb": table, "pre": bool((i + k) % 2)}
+                    if (i + k) % 3 == 0:
+                        case["template"] = PROBE
+                    cases.append((case, f"atom_line {'raises' if kind != 'N' else 'returns'} {name} at atom {k}"))
+        cases.append(({"prog": prog, "atoms": water, "cb": [["L", "a"], ["L", "b\nc"], ["L", ""]], "template": PROBE}, "texts"))
+        cases.append(({"prog": prog, "atoms": water, "cb": [["L", "a"], ["L", "b"]]}, "short table"))
+    return cases
 
 
 def _failure_cases():
@@ -537,7 +897,12 @@ def check_failures(ctx):
                 st = "WriteInputError"
             except Exception as exc:
                 st = type(exc).__name__
+            left = open(path).read() if os.path.exists(path) else None
         ctx.count("search-failure-injection", [prog, what], st)
+        if st != "ok" and left != "":
+            ctx.fail("input-file-state:after-failure", f"write_input({prog}): {what} ended with {st} and left the file "
+                     + ("absent" if left is None else f"with content {left[:40]!r}") + ", expected it opened and empty",
+                     {"kind": "failure", "prog": prog, "what": what})
         if st not in ("WriteInputError",) and not (st == "ok" and "nan" in what):
             ctx.fail(f"input-failure-escapes:{st}", f"write_input({prog}): {what} ended with {st}, expected WriteInputError",
                      {"kind": "failure", "prog": prog, "what": what})
